@@ -41,6 +41,7 @@ def run(ctx: Ctx) -> None:
     eager_safe(ctx)
     lazy_callback_rules(ctx, "R-C13-LAZY")
     validate(ctx)
+    config_buckets(ctx)
 
 
 def order(ctx: Ctx, rule="R-C13-ORDER") -> None:
@@ -309,6 +310,26 @@ def validate(ctx: Ctx, rule="R-C13-VALIDATE") -> None:
         ex |= flow.reach(g, ex, flow.NORMAL_KINDS + ("raise",))
         ctx.check(any(r.id in ex for r in raises), rule, f, "failing probe -> ValueError", "a wrong bucket class is rejected at construction",
                   "a failing bucket-class probe does not end in ValueError", instance="Connection validation raises")
+
+
+def config_buckets(ctx: Ctx, rule="R-C13-VALIDATE") -> None:
+    """Connection._update_from_config gives every broker the class that belongs to its role: args broker <- Config.BUCKET, results broker <- Config.RESULT_BUCKET
+    (a results broker that builds ArgsBucket objects cannot store any outcome: every result store fails)."""
+    f = ctx.func("repid.connection.Connection._update_from_config")
+    want = {"self.args_bucket_broker.BUCKET_CLASS": "Config.BUCKET", "self.results_bucket_broker.BUCKET_CLASS": "Config.RESULT_BUCKET",
+            "self.message_broker.PARAMETERS_CLASS": "Config.PARAMETERS", "self.message_broker.ROUTING_KEY_CLASS": "Config.ROUTING_KEY"}
+    got = {}
+    for a in ast.walk(f.node):
+        if isinstance(a, ast.Assign):
+            for t in a.targets:
+                d = dotted(t)
+                if d in want:
+                    src = sorted({dotted(x) for x in ast.walk(C.inline_locals(f, a.value, calls="all") or a.value) if isinstance(x, ast.Attribute) and (dotted(x) or "").startswith("Config.")})
+                    got[d] = src
+    for tgt, cfg in want.items():
+        ctx.check(got.get(tgt) == [cfg], rule, f, f"{tgt} <- {cfg}", "class of the broker's own role",
+                  f"Connection._update_from_config sets {tgt} from {got.get(tgt) or 'nothing'} instead of {cfg}: the broker builds objects of another role's class "
+                  "(e.g. a results broker building argument buckets - no result can be stored any more)", instance=f"config: {tgt.split('.')[1]}.{tgt.split('.')[2]}")
 
 
 def redis_bucket_expiry(ctx: Ctx, rule: str) -> None:
